@@ -131,6 +131,11 @@ impl PathSelector {
     ///  Returns true if pattern can match absolute paths
     fn is_absolute(pattern: &Pattern) -> bool {
         let s = pattern.to_string();
+        // look into the groups the pattern may start with, e.g. `{/a,/b}/**`
+        let mut s = s.as_str();
+        while let Some(rest) = s.strip_prefix('(') {
+            s = rest.strip_prefix("?:").unwrap_or(rest);
+        }
         s.starts_with(".*") || Path::from(s).is_absolute()
     }
 }
